@@ -43,6 +43,27 @@ impl<'a> Ps<'a> {
         let n = self.num()? as i64;
         Some(if neg { -n } else { n })
     }
+    /// up to 40 digits (u128 / i128 leaves)
+    pub fn bignum(&mut self) -> Option<u128> {
+        let st = self.i;
+        while self.peek().is_some_and(|c| c.is_ascii_digit()) {
+            self.i += 1;
+        }
+        if st == self.i || self.i - st > 40 {
+            return None;
+        }
+        std::str::from_utf8(&self.s[st..self.i]).ok()?.parse().ok()
+    }
+    /// signed; the magnitude may be 2^127 (i128::MIN)
+    pub fn ibignum(&mut self) -> Option<i128> {
+        let neg = self.eat(b'-').is_some();
+        let n = self.bignum()?;
+        if neg {
+            if n == 1u128 << 127 { Some(i128::MIN) } else { i128::try_from(n).ok().map(|x| -x) }
+        } else {
+            i128::try_from(n).ok()
+        }
+    }
     pub fn done(&self) -> bool {
         self.i == self.s.len()
     }
@@ -180,6 +201,107 @@ int_leaf!(Max, i8, "mxi8", i8::MIN, i8::MAX);
 int_leaf!(Min, i8, "mni8", i8::MAX, i8::MIN);
 int_leaf!(Max, i32, "mxi32", i32::MIN, i32::MAX);
 int_leaf!(Min, i32, "mni32", i32::MAX, i32::MIN);
+
+/// the remaining instantiations of `impls_numeric!` in ord.rs (16/64/128-bit, usize/isize): same macro
+/// body as the 8/32-bit ones, registered so that every type of the list is exercised at its own extremes
+macro_rules! wide_leaf {
+    ($w:ident, $t:ty, $d:expr, $bot:expr, $top:expr, $parse:ident, $small:expr) => {
+        impl Codec for $w<$t> {
+            fn desc() -> String {
+                $d.into()
+            }
+            fn kind() -> &'static str {
+                stringify!($w)
+            }
+            fn parse(p: &mut Ps) -> Option<Self> {
+                let n = p.$parse()?;
+                <$t>::try_from(n).ok().map($w::new)
+            }
+            fn show(&self) -> String {
+                self.as_reveal_ref().to_string()
+            }
+            fn spec_bot(&self) -> bool {
+                *self.as_reveal_ref() == $bot
+            }
+            fn spec_top(&self) -> bool {
+                *self.as_reveal_ref() == $top
+            }
+            fn pool() -> Vec<Self> {
+                let s: [$t; 2] = $small;
+                vec![$w::new(<$t>::MIN), $w::new(<$t>::MAX), $w::new(s[0]), $w::new(s[1])]
+            }
+            fn generate(rng: &mut Rng, big: bool) -> Self {
+                let s: [$t; 2] = $small;
+                let c: [$t; 6] = [<$t>::MIN, <$t>::MIN + 1, s[0], s[1], <$t>::MAX - 1, <$t>::MAX];
+                if big && rng.chance(1, 3) {
+                    $w::new((((rng.next_u64() as u128) << 64) | rng.next_u64() as u128) as $t)
+                } else {
+                    $w::new(*rng.pick(&c))
+                }
+            }
+        }
+    };
+}
+wide_leaf!(Max, u16, "mx16", u16::MIN, u16::MAX, bignum, [1, 2]);
+wide_leaf!(Min, u16, "mn16", u16::MAX, u16::MIN, bignum, [1, 2]);
+wide_leaf!(Max, u64, "mx64", u64::MIN, u64::MAX, bignum, [1, 2]);
+wide_leaf!(Min, u64, "mn64", u64::MAX, u64::MIN, bignum, [1, 2]);
+wide_leaf!(Max, u128, "mx128", u128::MIN, u128::MAX, bignum, [1, 2]);
+wide_leaf!(Min, u128, "mn128", u128::MAX, u128::MIN, bignum, [1, 2]);
+wide_leaf!(Max, usize, "mxz", usize::MIN, usize::MAX, bignum, [1, 2]);
+wide_leaf!(Min, usize, "mnz", usize::MAX, usize::MIN, bignum, [1, 2]);
+wide_leaf!(Max, i16, "mxi16", i16::MIN, i16::MAX, ibignum, [-1, 0]);
+wide_leaf!(Min, i16, "mni16", i16::MAX, i16::MIN, ibignum, [-1, 0]);
+wide_leaf!(Max, i64, "mxi64", i64::MIN, i64::MAX, ibignum, [-1, 0]);
+wide_leaf!(Min, i64, "mni64", i64::MAX, i64::MIN, ibignum, [-1, 0]);
+wide_leaf!(Max, i128, "mxi128", i128::MIN, i128::MAX, ibignum, [-1, 0]);
+wide_leaf!(Min, i128, "mni128", i128::MAX, i128::MIN, ibignum, [-1, 0]);
+wide_leaf!(Max, isize, "mxiz", isize::MIN, isize::MAX, ibignum, [-1, 0]);
+wide_leaf!(Min, isize, "mniz", isize::MAX, isize::MIN, ibignum, [-1, 0]);
+
+/// `Max<char>` / `Min<char>` (hand-written impls in ord.rs); values are printed as code points
+macro_rules! char_leaf {
+    ($w:ident, $d:expr, $bot:expr, $top:expr) => {
+        impl Codec for $w<char> {
+            fn desc() -> String {
+                $d.into()
+            }
+            fn kind() -> &'static str {
+                stringify!($w)
+            }
+            fn parse(p: &mut Ps) -> Option<Self> {
+                let n = p.num()?;
+                u32::try_from(n).ok().and_then(char::from_u32).map($w::new)
+            }
+            fn show(&self) -> String {
+                (*self.as_reveal_ref() as u32).to_string()
+            }
+            fn spec_bot(&self) -> bool {
+                *self.as_reveal_ref() as u32 == $bot
+            }
+            fn spec_top(&self) -> bool {
+                *self.as_reveal_ref() as u32 == $top
+            }
+            fn pool() -> Vec<Self> {
+                vec![$w::new('\0'), $w::new(char::MAX), $w::new('a'), $w::new('\u{D7FF}'), $w::new('\u{E000}')]
+            }
+            fn generate(rng: &mut Rng, big: bool) -> Self {
+                let c = ['\0', '\u{1}', 'a', 'b', '\u{D7FF}', '\u{E000}', '\u{10FFFE}', char::MAX];
+                if big && rng.chance(1, 3) {
+                    loop {
+                        if let Some(x) = char::from_u32(rng.below(0x110000) as u32) {
+                            return $w::new(x);
+                        }
+                    }
+                } else {
+                    $w::new(*rng.pick(&c))
+                }
+            }
+        }
+    };
+}
+char_leaf!(Max, "mxc", 0u32, 0x10FFFFu32);
+char_leaf!(Min, "mnc", 0x10FFFFu32, 0u32);
 
 macro_rules! bool_leaf {
     ($w:ident, $d:expr, $bot:expr) => {
